@@ -139,7 +139,7 @@ def make_scenario(rnd, counts, nues_choices=None, fault=None, opts=None):
                 ue["sqn"] = [[0, 0, 0, 0, 0, 1], [255] * 6][(d + 2 * u) % 3]
             if not (opts.get("big_amf_id") and u == 0):
                 ue["amfId"] = num(amf_ids[(3 * d + u) % len(amf_ids)])
-            ue["smOpt"] = s_ % 3
+            ue["smOpt"] = (d + u) % 3          # not s_ % 3, which is u % 3: the accept with every optional IE would never be built for two UEs
             ue["qosRules"] = [rr.randrange(256) for _ in range(qlens[s_ % 6])]
             ue["setupPaging"] = opts.get("setup_paging", s_ % 2 == 0)
             ue["withAmbr"] = (s_ // 2) % 2 == 0
